@@ -193,7 +193,14 @@ pub fn rec_msm(a: &Args, out: &mut Out) {
                         s2.push(bad);
                         let mut c2 = cells.clone();
                         c2.push((bad, c0.1, c0.2));
-                        emit_case(&mut r, out, num, g, &t, s2, c2, "bad-satellite");
+                        emit_case(&mut r, out, num, g, &t, s2, c2.clone(), "bad-satellite");
+                        // the bad id only in a cell (the satellite rows are all valid), and only in a satellite row
+                        if c2.len() <= 64 {
+                            emit_case(&mut r, out, num, g, &t, sats.clone(), c2, "bad-satellite");
+                        }
+                        let mut s3 = sats.clone();
+                        s3.insert(0, bad);
+                        emit_case(&mut r, out, num, g, &t, s3, cells.clone(), "bad-satellite");
                     }
                     1 => {
                         let mut c2 = cells.clone();
